@@ -326,10 +326,35 @@ def _circuit_job(job):
             except EXC as e:
                 same = False
             ctx.prove("the same program on a circuit with two quantum registers (and a barrier) denotes the same signed group", 1 if same else 0, info=dict(gates=gates, multireg=True))
+        # composite Clifford instructions whose name does not determine their content (`pauli` labels, appended Clifford
+        # operators): two circuits per path that differ only in the content of such an instruction, converted one after
+        # the other in the same interpreter (no reset in between)
+        from qiskit import QuantumCircuit
+        from qiskit.quantum_info import Clifford
+        for variant in ("pauli", "clifford"):
+            for pre in ("x", "z"):
+                g2 = [(pre, [0])] + list(gates)
+                qc3 = QuantumCircuit(n)
+                if variant == "pauli":
+                    qc3.pauli(pre.upper(), [0])
+                    for g, q in gates:
+                        getattr(qc3, g)(*q)
+                else:
+                    qc3.append(Clifford(c07.build_circuit(n, g2)), list(range(n)))
+                try:
+                    s3 = st.Stabilizer(qc3)
+                    want = c07.state_generators(n, g2)
+                    R3, S3, p3 = np.asarray(s3.R), np.asarray(s3.S), np.asarray(s3.phases)
+                    ok3 = R3.shape == (n, n) and S3.shape == (n, n) and p3.shape == (n,) and all(
+                        [int(R3[q, j]) for q in range(n)] == want[j].x and [int(S3[q, j]) for q in range(n)] == want[j].z and int(p3[j]) == want[j].r for j in range(n))
+                except EXC as e:
+                    ok3 = False
+                ctx.prove("a circuit with a composite instruction (%s) denotes the signed group of circuit|0..0>, also after a look-alike circuit was converted before" % variant,
+                          1 if ok3 else 0, info=dict(gates=gates, composite=variant))
         return {"gates": gates if len(gates) <= 3 else len(gates)}
     res = explore(fn, mode="fork")
     for v in res.violations[:3]:
-        cands.append(dict(kind="circuit", n=n, gates=v["info"]["gates"], multireg=bool(v["info"].get("multireg")), label=v["label"]))
+        cands.append(dict(kind="circuit", n=n, gates=v["info"]["gates"], multireg=bool(v["info"].get("multireg")), composite=v["info"].get("composite"), label=v["label"]))
     res.violations = []
     res.leaves = res.leaves[:1]
     return dict(res=res.to_json(), cands=cands)
@@ -360,7 +385,8 @@ def run(tier, seed):
     ck.bounds += ["strings: n=2 all strings symbolic (every character in IXYZ, every prefix in none/+/-: complete); n=3..6: one symbolic string, the others seeded; characters are realised before the call (solver-driven enumeration)",
                   "to_list: symbolic (R,S,signs): n=2 complete; n=3: seeded %d of 512 partitions" % (8 if tier == "quick" else 64),
                   "matrices and graph input: all entries symbolic, n=2..6, no forks", "Graph.to_circuit: symbolic adjacency n=2..%d" % (4 if tier == "quick" else 5),
-                  "circuit input: slicing lemma over an arbitrary symbolic tableau n=2..6 (qiskit's StabilizerState stubbed); all programs of <=%s gates on 2 qubits, <=2 on 3 qubits; every lookup-table circuit; seeded long programs" % ("2" if tier == "quick" else "3")]
+                  "circuit input: slicing lemma over an arbitrary symbolic tableau n=2..6 (qiskit's StabilizerState stubbed); all programs of <=%s gates on 2 qubits, <=2 on 3 qubits; every lookup-table circuit; seeded long programs" % ("2" if tier == "quick" else "3"),
+                  "composite Clifford instructions (qiskit `pauli` label gates and appended Clifford operators, whose name does not determine their content): for every explored program, two look-alike circuits differing only in that content, converted consecutively in one interpreter"]
     ck.outside += ["strings with symbolic characters for several generators at n>=3", "qiskit's own tableau computation (validated against ztab on the bounded programs and all table circuits)"]
     ck.validated += ztab.validate_against_qiskit(seed=seed, trials=200)
     jobs = [("s", (2, 2, seed, ()))]
@@ -481,6 +507,32 @@ def replay(case):
             if abs(dense.expectation(psi, n, lab) - 1) > 1e-9:
                 return True, "<%s> = %.2f on Graph.to_circuit()|0>" % (lab, dense.expectation(psi, n, lab))
         return False, "graph state ok"
+    if kind == "circuit" and case.get("composite"):
+        gates = [(g, list(q)) for g, q in case["gates"]]
+        from qiskit import QuantumCircuit
+        from qiskit.quantum_info import Clifford
+        for pre in ("x", "z"):
+            g2 = [(pre, [0])] + gates
+            qc = QuantumCircuit(n)
+            if case["composite"] == "pauli":
+                qc.pauli(pre.upper(), [0])
+                for g, q in gates:
+                    getattr(qc, g)(*q)
+            else:
+                ref = QuantumCircuit(n)
+                for g, q in g2:
+                    getattr(ref, g)(*q)
+                qc.append(Clifford(ref), list(range(n)))
+            try:
+                s = Stabilizer(qc)
+            except Exception as e:
+                return True, "raised %r" % (e,)
+            psi = dense.run(n, g2)
+            labs = s.to_list()
+            for lab in labs:
+                if abs(dense.expectation(psi, n, lab) - 1) > 1e-9:
+                    return True, "after a look-alike circuit: Stabilizer(circuit with %s instruction = %s) lists %s but <%s> = %.2f on circuit|0..0>" % (case["composite"], g2, labs, lab, dense.expectation(psi, n, lab))
+        return False, "composite instructions ok"
     if kind == "circuit":
         gates = [(g, list(q)) for g, q in case["gates"]]
         from qiskit import QuantumCircuit, QuantumRegister
